@@ -358,6 +358,12 @@ def main(argv):
             ctx.coverage_extra = dict(ctx.coverage_extra, regimes=["cold caches", "warm: after the prelude pack of mc/worlds.py warm_up"], evaluations_cold_pass=int(cold.get("evaluations", 0)))
     except HarnessError as e:
         print("HARNESS-NONDETERMINISM/ERROR: %s" % e)
+        if ctx.part.n_violations:
+            # violations were found before the harness gave up (e.g. library state that leaks between
+            # histories also makes rebuilt states differ): they are the verdict
+            ctx.part.notes.append("exploration stopped early: %s" % e)
+            ctx.exhaustive = False
+            return finish(ctx, time.time() - t0)
         return 2
     except Exception as e:
         tb = traceback.format_exc()
